@@ -22,6 +22,20 @@ PROPS = {
         "assumptions": ["sim link is loss-free FIFO per direction", "hooks are matched 200 ms after Close returned so late is told apart from lost",
                         "result codes 2 (NormalClosure, wire alias of Succeeded) and 30 (TooShortPingInterval, C11's finding) are not sent by the scripted broker"],
     },
+    "C18": {
+        "level": "fault_enumeration",
+        "groups": [g("main", "c18", q=8, t=32, run="^Test(Regress|Prop)$", gomaxprocs=[4, 1, 2, 16])],
+        "timeout": {"quick": 300, "thorough": 1800},
+        "rule": ("generated: scripted underlying dialer: 1-4 connection plans {reconnect handshake present/error, fail the n-th write, break after r "
+                 "inbound reads, inbound messages incl. control pings}, failing dial attempts, budget exhaustion (every further dial fails) or a "
+                 "healthy last connection, MaxReconnectAttempts 1-3, 1-4 concurrent writers with up to 10 tagged writes each, one reader, Close at "
+                 "the end or after k accepted writes. Oracle from the per-connection accepted-write logs: exactly-once for nil returns, at-most-once "
+                 "for errors, per-writer order across connections, transport id + reconnect flag of every dial, Read == delivered inbound in order, "
+                 "pings filtered and answered by pongs, every pending/later Read/Write errors within 3 s after exhaustion or Close. Non-trivial = a "
+                 "redial with >= 2 writers, a failed dial attempt, or exhaustion; distinct by case hash."),
+        "assumptions": ["an underlying Write that returns an error did not deliver the message", "a redialled connection delivers one handshake message first (consumed by the library)",
+                        "a Read after Close may still return messages that were already buffered (finite), then must error"],
+    },
     "C20": {
         "level": "exploration",
         "groups": [g("main", "c20", q=8, t=32, run="^Test(Regress|Single|Concurrent|Interval)$", gomaxprocs=[4, 1, 2, 16])],
